@@ -6,13 +6,23 @@ reference's observation vector -- computed in Coq by `ref_solve`/`ref_observe`, 
 no Maybe<> environment and no evaluation order -- must EQUAL the observation vector the compiled
 generated code printed for the same buffer: on complete buffers and on truncated ones.
 
+The class was widened (coq/theories/View/RefNest.v, theorems gen_agrees_with_ref_nested,
+gen_observations_are_ref_nested): bits blocks (named bits types and anonymous `bits:` with their hoisted aliases),
+nested structures with and without parameters, structure-typed fields of dynamic size.  Structures in the widened
+class `wf_ref_n` are compared through `ref_observe_n` (the tree-shaped reference); those that also lie in the flat
+class are compared through the flat `ref_observe` as well.
+
 Two sources of cases:
   * the (module, buffer) cases the C01 check already collected (gen_view modules and testdata structures);
     those outside the class are counted, not compared;
   * modules generated here for the class (RefModule): scalars of several kinds/widths/byte orders at static,
     dynamic and $next offsets, existence conditions over earlier and later fields (also over fields that are
     themselves absent), [requires], virtual fields, aliases, $present, $max, $size_in_bytes in expressions,
-    an optional top-level parameter.
+    an optional top-level parameter;
+  * modules generated here for the widened class (NestModule): seed-independent shapes for every new feature in
+    every run plus random combinations (bits types with conditional members, anonymous bits blocks, nested
+    structures at static and dynamic offsets, two-level nesting, parameters whose arguments are earlier fields,
+    `[+len]` sizes, virtual fields / aliases / conditions over members of nested views).
 """
 import os
 
@@ -131,6 +141,157 @@ class RefModule:
         return "\n".join(self.lines) + "\n"
 
 
+NEST_TYPES = """bits Flags:
+  0 [+3]  UInt  lo
+  3 [+1]  Flag  f
+  4 [+4]  UInt  hi
+  if lo == 1:
+    8 [+8]  UInt  ext
+  if f:
+    8 [+4]  Int  sx
+bits Nib:
+  0 [+4]  UInt  n0
+  4 [+4]  Bcd  n1
+struct Leaf:
+  0 [+1]  UInt  lx
+  1 [+1]  Int  ly
+    [requires: this != 5]
+struct Inner:
+  0 [+1]  UInt  x
+  1 [+2]  UInt  y
+  if x == 1:
+    3 [+1]  UInt  z
+  let s = x + 1
+struct Deep:
+  0 [+1]  UInt  k
+  1 [+2]  Leaf  lf
+  if k > 1:
+    k [+2]  Leaf  lg
+  3 [+1]  bits:
+    0 [+2]  UInt  d0
+    2 [+6]  UInt  d1
+struct PInner(n: UInt:8):
+  0 [+1]  UInt  px
+  if n == 1:
+    1 [+1]  UInt  py
+  if n > 2:
+    1 [+2]  UInt  pw
+  let pp = n + px
+struct PDeep(a: UInt:8, b: UInt:8):
+  0 [+1]  UInt  q
+  1 [+b]  PInner(a)  pi
+  if a == b:
+    0 [+2]  Flags  qf
+"""
+
+# seed-independent shapes: one per new feature (bodies of `struct Top`)
+NEST_SHAPES = {
+    "bits": ["  0 [+1]  UInt  tag", "  1 [+1]  UInt  len", "  2 [+2]  Flags  fl", "  4 [+1]  Nib  nb",
+             "  5 [+1]  bits:", "    0 [+4]  UInt  a", "    4 [+4]  Int  b",
+             "  if tag == 1:", "    6 [+2]  bits:", "      0 [+10]  UInt  c", "      10 [+6]  UInt  dd",
+             "  if fl.lo == 2:", "    len [+2]  Flags  gl",
+             "  let v = a + fl.hi", "  let u = fl.f"],
+    "nested": ["  0 [+1]  UInt  tag", "  1 [+1]  UInt  len", "  2 [+4]  Inner  a",
+               "  if tag == 2:", "    len [+4]  Inner  b", "  6 [+4]  Deep  dp",
+               "  let s2 = a.y + 1", "  let al = a.x", "  if a.x == 1:", "    10 [+1]  UInt  trailer"],
+    "params": ["  0 [+1]  UInt  tag", "  1 [+1]  UInt  len", "  2 [+3]  PInner(tag)  p",
+               "  if tag != 0:", "    5 [+3]  PInner(len)  q", "  8 [+6]  PDeep(tag, len)  pd", "  let t = p.px + 1"],
+    "dynsize": ["  0 [+1]  UInt  tag", "  1 [+1]  UInt  len", "  2 [+len]  Inner  a", "  tag [+len]  PInner(len)  p",
+                "  $next [+tag]  Deep  dp", "  let e = a.x + len"],
+}
+
+
+class NestModule:
+    """a module whose structure `Top` is meant to lie in the widened class wf_ref_n"""
+
+    def __init__(self, rng, shape=None):
+        r = self.r = rng
+        self.order = r.choice(["LittleEndian", "BigEndian"]) if shape is None else "LittleEndian"
+        L = self.lines = ['[$default byte_order: "%s"]' % self.order, '[(cpp) namespace: "m"]']
+        L += NEST_TYPES.rstrip("\n").split("\n")
+        L.append("struct Top:")
+        self.top_param = None
+        self.shape = shape or "random"
+        if shape is not None:
+            L += NEST_SHAPES[shape]
+            self.max_len = 20
+        else:
+            self.random_top()
+
+    def random_top(self):
+        r, L = self.r, self.lines
+        L.append("  0 [+1]  UInt  tag")
+        L.append("  1 [+1]  UInt  len")
+        off = 2
+        ints = ["tag", "len"]          # integer expressions usable in virtual fields
+        conds = ["tag == 1", "tag == 2", "len != 0", "tag > 2", "tag < 100 && len > 0"]
+        aliasable = []
+        for i in range(r.randint(2, 6)):
+            kind = r.choice(["scalar", "flags", "nib", "anon", "inner", "inner", "leaf", "deep", "pinner", "pinner", "pdeep"])
+            size = {"scalar": r.choice([1, 2, 4]), "flags": 2, "nib": 1, "anon": r.choice([1, 2]), "inner": 4, "leaf": 2,
+                    "deep": 4, "pinner": 3, "pdeep": 5}[kind]
+            k = r.random()
+            pos = str(off) if k < 0.6 else r.choice(["len", "len + %d" % r.choice([1, 2, off]), "tag + 2", "$next"])
+            sz = str(size)
+            if kind in ("inner", "deep", "pinner", "pdeep", "leaf") and r.random() < 0.3:
+                sz = r.choice(["len", "tag", "len + 1"])            # a structure-typed field of dynamic size
+            ind = "  "
+            if r.random() < 0.3:
+                L.append("  if %s:" % r.choice(conds))
+                ind = "    "
+            nm = "%s%d" % (kind[0] if kind != "pdeep" else "w", i)
+            arg = r.choice(["tag", "len"] + [x for x in ints if "." not in x and x.startswith("s")][:2])
+            if kind == "scalar":
+                L.append("%s%s [+%d]  %s  %s" % (ind, pos, size, r.choice(["UInt", "UInt", "Int"]), nm))
+                if size == 1 and ind == "  ":
+                    ints.append(nm)
+            elif kind == "flags":
+                L.append("%s%s [+2]  Flags  %s" % (ind, pos, nm))
+                ints += [nm + ".lo", nm + ".hi"]
+                conds += ["%s.f" % nm, "%s.lo == 1" % nm]
+                aliasable.append(nm + ".hi")
+            elif kind == "nib":
+                L.append("%s%s [+1]  Nib  %s" % (ind, pos, nm))
+                ints.append(nm + ".n0")
+            elif kind == "anon":
+                L.append("%s%s [+%d]  bits:" % (ind, pos, size))
+                L.append("%s  0 [+3]  UInt  %sa" % (ind, nm))
+                L.append("%s  3 [+%d]  %s  %sb" % (ind, 8 * size - 4, r.choice(["UInt", "Int"]), nm))
+                L.append("%s  %d [+1]  Flag  %sc" % (ind, 8 * size - 1, nm))
+                ints.append(nm + "a")
+                conds.append(nm + "c")
+            elif kind == "inner":
+                L.append("%s%s [+%s]  Inner  %s" % (ind, pos, sz, nm))
+                ints += [nm + ".x", nm + ".y"]
+                conds.append("%s.x == 1" % nm)
+                aliasable.append(nm + ".y")
+            elif kind == "leaf":
+                L.append("%s%s [+%s]  Leaf  %s" % (ind, pos, sz, nm))
+                ints.append(nm + ".lx")
+                aliasable.append(nm + ".ly")
+            elif kind == "deep":
+                L.append("%s%s [+%s]  Deep  %s" % (ind, pos, sz, nm))
+                ints += [nm + ".k", nm + ".lf.lx", nm + ".d1"]
+                aliasable.append(nm + ".lf.ly")
+            elif kind == "pinner":
+                L.append("%s%s [+%s]  PInner(%s)  %s" % (ind, pos, sz, arg, nm))
+                ints.append(nm + ".px")
+                conds.append("%s.px > 3" % nm)
+            else:
+                L.append("%s%s [+%s]  PDeep(%s, %s)  %s" % (ind, pos, sz, arg, r.choice(["tag", "len"]), nm))
+                ints.append(nm + ".q")
+            off += size
+        self.max_len = off + 10
+        for j in range(r.randint(0, 4)):
+            a, b = r.choice(ints), r.choice(ints)
+            expr = r.choice(["%s + %d" % (a, r.choice([1, 10])), "%s > 5 || %s == 0" % (a, b), "$max(%s, %s, 3)" % (a, b),
+                             "$size_in_bytes + %s" % a, "%s - %s" % (a, b)] + ([r.choice(aliasable)] if aliasable else []))
+            L.append("  let v%d = %s" % (j, expr))
+
+    def text(self):
+        return "\n".join(self.lines) + "\n"
+
+
 def buffers(rng, max_len, count):
     out = [[], [1], [1, 2]]
     fills = [lambda i: 0, lambda i: 255, lambda i: 1, lambda i: rng.randrange(256),
@@ -146,12 +307,11 @@ def buffers(rng, max_len, count):
     return out
 
 
-def own_cases(ctx, compile_ir, n_mod, n_buf):
-    """modules generated for the class, through the real front end, back end and g++"""
+def own_cases(ctx, compile_ir, gens, n_buf, prefix, base=0):
+    """modules generated for the class (`gens`: generator objects), through the real front end, back end and g++"""
     from compiler.back_end.cpp import header_generator
     jobs, infos = [], []
-    for i in range(n_mod):
-        gm = RefModule(ctx.rng)
+    for i, gm in enumerate(gens):
         text = gm.text()
         try:
             ir, errors = compile_ir(text)
@@ -179,20 +339,21 @@ def own_cases(ctx, compile_ir, n_mod, n_buf):
         except OutOfModel as ex:
             ctx.count("ref:out-of-model:" + str(ex).split(" ")[0])
             continue
-        jobs.append(cpp_build.CppJob("r%d" % i, None, driver))
-        infos.append(dict(i=i, text=text, mod=mod_term, top=top, bufs=bufs, pvals=pvals))
-    results = cpp_build.run_jobs(os.path.join(ctx.bdir, "cpp_ref"), jobs, parallel=fw.NPROC)
-    mods, cases = [], []
+        jobs.append(cpp_build.CppJob("%s%d" % (prefix, i), None, driver))
+        infos.append(dict(i=i, text=text, mod=mod_term, top=top, bufs=bufs, pvals=pvals, shape=getattr(gm, "shape", "flat")))
+    results = cpp_build.run_jobs(os.path.join(ctx.bdir, "cpp_ref_" + prefix), jobs, parallel=fw.NPROC)
+    mods, cases, shapes = [], [], []
     for info in infos:
-        res = results["r%d" % info["i"]]
+        res = results["%s%d" % (prefix, info["i"])]
         if not res.ok:
             ctx.count("ref:cpp-" + res.stage + "-failed")
             ctx.violation("cpp-build-failed:" + res.stage, "generated header/driver failed at stage %s: %s" % (res.stage, res.log[-600:]),
                           dict(kind="module", module=info["text"], stage=res.stage, log=res.log[-3000:]), found_input=True)
             continue
-        k = len(mods)
+        k = base + len(mods)
         mods.append("(%s, %d%%nat, %s)" % (info["mod"], info["top"],
                                            "[" + "; ".join("Some (VInt %d)" % v for v in info["pvals"]) + "]" if info["pvals"] else "@nil (maybe value)"))
+        shapes.append(info["shape"])
         lines = {l.split(" ", 1)[0]: l for l in res.lines if l.startswith("B")}
         for bi, b in enumerate(info["bufs"]):
             l = lines.get("B%d" % bi)
@@ -202,53 +363,153 @@ def own_cases(ctx, compile_ir, n_mod, n_buf):
                 continue
             obs = [int(x) for x in l.split()[1:]]
             cases.append(("(%d%%nat, %s)" % (k, zlist(b)), zlist(obs), dict(module=info["text"], buffer=b, cpp=obs)))
-    return mods, cases
+    return mods, cases, shapes
 
 
-def _compare(ctx, tag, mods, cases, what):
-    """mods: Coq terms (module, struct index, parameters); cases: ("(k, bytes)", C++ observation vector, object).
-    Returns (number of structures in the class, number compared, mismatches)."""
+ARRAY_WITNESS = """[$default byte_order: "LittleEndian"]
+[(cpp) namespace: "m"]
+struct Top:
+  0 [+1]  UInt  n
+  1 [+n]  UInt:8[]  payload
+"""
+
+
+def array_probe(ctx, compile_ir):
+    """the witness of RefNestProofs.gen_agrees_with_ref_refuted_array on the REAL generated code: the reference says an
+    array has size/elem elements of its designated window and is readable when that window is in the message; the
+    generated code agrees on messages that contain the whole array and reports the clamped count (Ok) on truncated
+    ones (known finding F9, key prefix-instability:array)."""
+    from compiler.back_end.cpp import header_generator
+    ir, errors = compile_ir(ARRAY_WITNESS)
+    if errors:
+        ctx.obligation("reference: the array witness module compiles", False)
+        return
+    tr = view_x.ViewTranslator(ir)
+    top = [k for k, t in enumerate(tr.types) if t.name.name.text == "Top"][0]
+    header, _ = header_generator.generate_header(ir)
+    bufs = [[3, 7], [3, 7, 8, 9], [3, 7, 8, 9, 10], [2, 7, 8], [2, 7], [0], [1], [5, 1, 2, 3], [4, 1, 2, 3, 4]]
+    bufs += [[ctx.rng.randrange(0, 9)] + [ctx.rng.randrange(256) for _ in range(ctx.rng.randrange(0, 9))] for _ in range(12)]
+    res = cpp_build.run_jobs(os.path.join(ctx.bdir, "cpp_ref_array"), [cpp_build.CppJob("a0", None, tr.driver("/*INLINE*/\n" + header, top, [], bufs))],
+                             parallel=1)["a0"]
+    if not res.ok:
+        ctx.obligation("reference: the array witness builds", False)
+        return
+    lines = {l.split(" ", 1)[0]: l for l in res.lines if l.startswith("B")}
+    cases = []
+    for bi, b in enumerate(bufs):
+        obs = [int(x) for x in lines["B%d" % bi].split()[1:]]
+        idx = 5 if obs[3] == 1 else 4
+        idx += 2 + (1 if obs[idx + 1] == 1 else 0)          # n: has, ok, value
+        triple = obs[idx:idx + 3]                            # payload: has, ok, ElementCount
+        cases.append(("(0%%nat, (1%%nat, %s))" % zlist(b), zlist(triple), dict(buffer=b, cpp=triple)))
+    hdr = HEADER + "Definition mods : list (module * nat * list (maybe value)) := [(%s, %d%%nat, @nil (maybe value))].\n" % (tr.module(), top)
+    bad = fw.CoqCases(ctx, "nrefarray", hdr, "run_nref_field_probe mods", "zlist_eqb", "(nat * (nat * list Z))", "(list Z)", shard=60).run(cases)
+    differ = {idx for idx, _ in bad}
+    whole = [i for i, c in enumerate(cases) if len(c[2]["buffer"]) >= 1 + c[2]["buffer"][0]] if cases else []
+    whole = [i for i in whole if cases[i][2]["buffer"]]
+    trunc = [i for i in range(len(cases)) if i not in whole]
+    ctx.count("ref:array-witness-whole-array-agrees", len([i for i in whole if i not in differ]))
+    ctx.count("ref:array-witness-truncated-clamped-count(F9)", len([i for i in trunc if i in differ]))
+    for c in cases:
+        ctx.case(("ref-array", tuple(c[2]["buffer"])), nontrivial=len(c[2]["buffer"]) > 0, sample=c[2])
+    first = cases[0][2]["cpp"] if cases else None
+    ctx.obligation("reference, arrays: on the %d messages that contain the whole array the generated C++ reports the reference's "
+                   "element count and readability; the witness of gen_agrees_with_ref_refuted_array {3, 7} reads %s on the real code "
+                   "(reference: present, not readable, 3 elements)" % (len(whole), first),
+                   bool(whole) and not any(i in differ for i in whole))
+
+
+FLAGS = ["flat-class", "nested-class", "bits", "nested-structure", "nested-with-arguments", "dynamic-size"]
+
+
+def _compare(ctx, mods, cases, what_of):
+    """mods: Coq terms (module, struct index, parameters); cases: ("(k, bytes)", C++ observation vector, object);
+    what_of(k): the source of structure k ("collected", "generated", "nested").
+    Returns (set of structure indices in the widened class, per-structure flags, number compared, mismatches)."""
     if not mods:
-        return 0, 0, []
+        return set(), {}, 0, []
     hdr = HEADER + "Definition mods : list (module * nat * list (maybe value)) := [\n" + ";\n".join(mods) + "\n].\n"
-    cls = fw.CoqCases(ctx, "refclass_" + tag, hdr, "ref_in_class mods", "zlist_eqb", "nat", "(list Z)", shard=40)
-    out = cls.run([("%d%%nat" % k, "[1]", k) for k in range(len(mods))])
-    outside = {idx for idx, _ in out}
-    inside = [k for k in range(len(mods)) if k not in outside]
-    ctx.count("ref:%s-structures-in-class" % what, len(inside))
-    ctx.count("ref:%s-structures-outside-class" % what, len(outside))
-    sel = [c for c in cases if int(c[0].split("%")[0].strip("(")) in inside]
-    ctx.count("ref:%s-cases-outside-class" % what, len(cases) - len(sel))
+    # class membership and features of every structure, decided in Coq (wf_ref, wf_ref_n, features)
+    cls = fw.CoqCases(ctx, "refclass", hdr, "ref_flag mods", "zlist_eqb", "(nat * nat)", "(list Z)", shard=60)
+    probes = [(k, j) for k in range(len(mods)) for j in range(len(FLAGS))]
+    out = cls.run([("(%d%%nat, %d%%nat)" % (k, j), "[1]", (k, j)) for k, j in probes])
+    off = {probes[idx] for idx, _ in out}
+    flags = {k: {FLAGS[j] for j in range(len(FLAGS)) if (k, j) not in off} for k in range(len(mods))}
+    flat = {k for k in flags if "flat-class" in flags[k]}
+    inside = {k for k in flags if "nested-class" in flags[k]}
+    for k in range(len(mods)):
+        what = what_of(k)
+        ctx.count("ref:%s-structures-%s" % (what, "in-class" if k in inside else "outside-class"))
+        if k in flat:
+            ctx.count("ref:%s-structures-in-flat-class" % what)
+        if k in inside:
+            for fl in flags[k] - {"flat-class", "nested-class"}:
+                ctx.count("ref:%s-structures-with-%s" % (what, fl))
+    ctx.obligation("reference: every structure of the flat class wf_ref is in the widened class wf_ref_n (%d structures)" % len(flat),
+                   flat <= inside)
+    idx_of = lambda c: int(c[0].split("%")[0].strip("("))
+    sel = [c for c in cases if idx_of(c) in inside]
+    for c in cases:
+        if idx_of(c) not in inside:
+            ctx.count("ref:%s-cases-outside-class" % what_of(idx_of(c)))
     if not sel:
-        return len(inside), 0, []
-    runner = fw.CoqCases(ctx, "refviews_" + tag, hdr, "run_ref_case mods", "zlist_eqb", "(nat * list Z)", "(list Z)", shard=60)
-    bad = runner.run(sel)
-    for a, b, obj in sel:
+        return inside, flags, 0, []
+    runner = fw.CoqCases(ctx, "nrefviews", hdr, "run_nref_case mods", "zlist_eqb", "(nat * list Z)", "(list Z)", shard=60)
+    bad = [(sel[idx], out, "View.RefNest.ref_observe_n") for idx, out in runner.run(sel)]
+    # the flat reference of View/Ref.v stays tied on the structures of its own class
+    sel_flat = [c for c in sel if idx_of(c) in flat]
+    if sel_flat:
+        runner0 = fw.CoqCases(ctx, "refviews", hdr, "run_ref_case mods", "zlist_eqb", "(nat * list Z)", "(list Z)", shard=60)
+        bad += [(sel_flat[idx], out, "View.Ref.ref_observe (ref_solve)") for idx, out in runner0.run(sel_flat)]
+        ctx.count("ref:cases-also-through-flat-reference", len(sel_flat))
+    for c in sel:
+        obj = c[2]
         complete = len(obj["cpp"]) > 2 and obj["cpp"][2] == 1
-        ctx.count("ref:%s-%s-buffer" % (what, "complete" if complete else "truncated"))
+        ctx.count("ref:%s-%s-buffer" % (what_of(idx_of(c)), "complete" if complete else "truncated"))
+        for fl in flags[idx_of(c)] - {"flat-class", "nested-class"}:
+            ctx.count("ref:cases-with-%s-%s" % (fl, "complete" if complete else "truncated"))
         ctx.case(("ref", obj["module"], tuple(obj["buffer"])), nontrivial=len(obj["buffer"]) > 0,
                  sample={"buffer": obj["buffer"], "reference_and_cpp_observations": obj["cpp"][:40], "module_head": obj["module"][:300]})
-    return len(inside), len(sel), [(sel[idx], out) for idx, out in bad]
+    return inside, flags, len(sel), bad
 
 
 def run(ctx, compile_ir, mods, cases):
     """hook called by harness/props/c01.py after its own correspondence: `mods`/`cases` are the ones it compared
     with the generated-code model."""
-    n_mod = 60 if ctx.thorough() else 14
-    n_buf = 50 if ctx.thorough() else 28
-    total_in, total_cmp, bad = 0, 0, []
-    a, b, c = _compare(ctx, "c01", mods, cases, "collected")
-    total_in, total_cmp, bad = total_in + a, total_cmp + b, bad + c
-    omods, ocases = own_cases(ctx, compile_ir, n_mod, n_buf)
-    a2, b2, c2 = _compare(ctx, "own", omods, ocases, "generated")
-    total_in, total_cmp, bad = total_in + a2, total_cmp + b2, bad + c2
-    ctx.obligation("reference: the generator for the class produces structures inside wf_ref (%d of %d)" % (a2, len(omods)),
-                   len(omods) > 0 and a2 * 2 >= len(omods))
-    ctx.obligation("reference: %d (structure, buffer) observation vectors of the generated C++ equal View.Ref's "
-                   "(complete and truncated buffers; %d structures in the class wf_ref)" % (total_cmp, total_in),
+    n_mod = 60 if ctx.thorough() else 8
+    n_nest = 60 if ctx.thorough() else 10
+    n_buf = 50 if ctx.thorough() else 22
+    # generated for the flat class, then for the widened class: one fixed shape per new feature in every run,
+    # then random combinations
+    gens = [RefModule(ctx.rng) for _ in range(n_mod)]
+    gens += [NestModule(ctx.rng, shape=sh) for sh in sorted(NEST_SHAPES)] + [NestModule(ctx.rng) for _ in range(n_nest)]
+    base = len(mods)
+    omods, ocases, shapes = own_cases(ctx, compile_ir, gens, n_buf, "g", base=base)
+
+    def what_of(k):
+        return "collected" if k < base else ("generated" if shapes[k - base] == "flat" else "nested")
+
+    inside, flags, total_cmp, bad = _compare(ctx, list(mods) + omods, list(cases) + ocases, what_of)
+    own_flat = [base + k for k, sh in enumerate(shapes) if sh == "flat"]
+    own_nest = [base + k for k, sh in enumerate(shapes) if sh != "flat"]
+    ctx.obligation("reference: the generator for the flat class produces structures inside the class (%d of %d)"
+                   % (len([k for k in own_flat if "flat-class" in flags.get(k, ())]), len(own_flat)),
+                   len(own_flat) > 0 and len([k for k in own_flat if "flat-class" in flags.get(k, ())]) * 2 >= len(own_flat))
+    want = {"bits": "bits", "nested": "nested-structure", "params": "nested-with-arguments", "dynsize": "dynamic-size"}
+    fixed_ok = all(sh in shapes and (base + shapes.index(sh)) in inside and want[sh] in flags[base + shapes.index(sh)]
+                   for sh in NEST_SHAPES)
+    ctx.obligation("reference: the seed-independent modules for bits blocks, nested structures, parameters and dynamic sizes "
+                   "compile, lie in the widened class wf_ref_n and show their feature", fixed_ok)
+    ctx.obligation("reference: the generator for the widened class produces structures inside the class (%d of %d)"
+                   % (len([k for k in own_nest if k in inside]), len(own_nest)),
+                   len(own_nest) > 0 and len([k for k in own_nest if k in inside]) * 2 >= len(own_nest))
+    ctx.obligation("reference: %d (structure, buffer) observation vectors of the generated C++ equal the reference's "
+                   "(View.RefNest.ref_observe_n, and View.Ref.ref_observe on the flat class; complete and truncated buffers; "
+                   "%d structures in the class)" % (total_cmp, len(inside)),
                    total_cmp > 0 and not bad)
-    for (inp, exp, obj), out in bad[:6]:
+    array_probe(ctx, compile_ir)
+    for (inp, exp, obj), out, which in bad[:6]:
         ctx.violation("view-ref-disagreement",
                       "the reference semantics and the generated C++ disagree on a buffer of length %d" % len(obj["buffer"]),
-                      dict(kind="view", correspondence="View.Ref.ref_observe (ref_solve) vs generated C++ observations",
+                      dict(kind="view", correspondence="%s vs generated C++ observations" % which,
                            module=obj["module"], buffer=obj["buffer"], cpp=obj["cpp"], reference=out[:4000]), found_input=True)
